@@ -1,5 +1,6 @@
 """C17 State trackers equal the true configuration; probabilities are time shares."""
 from fractions import Fraction
+import copy
 
 from ..families import *
 from .. import oracles
@@ -33,11 +34,11 @@ class Monitor(object):
         self.blocked_order.append((node.id_number, dest.id_number, ind.id_number))
 
     def on_release(self, node, dest, ind, blocked):
-        if blocked:
-            for k, (f, t, i) in enumerate(self.blocked_order):
-                if i == ind.id_number and f == node.id_number:
-                    del self.blocked_order[k]
-                    break
+        # (not conditioned on the `blocked` argument: that is what the engine TELLS the tracker)
+        for k, (f, t, i) in enumerate(self.blocked_order):
+            if i == ind.id_number and f == node.id_number:
+                del self.blocked_order[k]
+                break
 
     # ---- truth -----------------------------------------------------------------------------------------
     def truths(self, Q):
@@ -106,25 +107,28 @@ class Monitor(object):
 
     def on_boundary(self, Q):
         s = self.check_state(Q)
-        self.timeline.append((Q.current_time, s))
+        # the instant of the event just executed, read BEFORE the event (the boundary seam is the tracker's own
+        # timestamp() call, so the clock at the boundary would follow a misplaced call)
+        self.timeline.append((self.hub.events[-1][0], s))
 
     # ---- history and probabilities ----------------------------------------------------------------------
     def on_end(self, Q, status, exc):
         self.validated = 1
-        if status != "ok" or Q is None or self.hub.entry[0] != "max_time" or self.hub.violations:
+        if status != "ok" or Q is None or self.hub.entry[0] not in ("max_time", "max_customers") or self.hub.violations:
             return
         tr = Q.statetracker
-        T = self.hub.entry[1]
+        # simulate_until_max_customers stops right after the event that reached the count: windows up to that instant
+        T = self.hub.entry[1] if self.hub.entry[0] == "max_time" else (self.timeline[-1][0] if self.timeline else 0.0)
         comp = []
         for t, s in self.timeline:
             if not comp or comp[-1][1] != s:
                 comp.append([t, s])
         hist = [list(h) for h in tr.history]
         if hist != comp:
-            self.violate("history_ne_compressed_truth", {"history": hist[:12], "truth": comp[:12]})
+            self.violate("history_ne_compressed_truth", {"tracker_history": hist[:12], "truth": comp[:12]})
             return
         if any(hist[k][0] > hist[k + 1][0] for k in range(len(hist) - 1)):
-            self.violate("history_timestamps_decrease", {"history": hist[:12]})
+            self.violate("history_timestamps_decrease", {"tracker_history": hist[:12]})
         if len(comp) < 2:
             return
         self.hub.flags.add("history_with_changes")
@@ -158,7 +162,7 @@ class Monitor(object):
                                  {"window": [float(a), float(b)], "got": {str(k): float(v) for k, v in got.items()},
                                   "expected": {str(k): float(v) for k, v in exp.items()},
                                   "window_ends_on_event_instant": any(F(t) == b for t, _ in comp),
-                                  "history": hist[:10]})
+                                  "tracker_history": hist[:10]})
                     return
         # default window: no defined end; only sanity
         try:
@@ -251,6 +255,20 @@ def focused(tier):
          {"A": klass([ARR, None], [[2.0, 1.0], [1.0]], batch=[[2, 1, 0], None], route=matrix([[0.0, 0.5], [0.0, 0.0]])),
           "B": klass([None, {"values": [1.0, 2.0], "budget": 1}], [[2.0, 1.0], [1.0]], batch=[None, None], route=matrix([[0.0, 0.0], [0.0, 0.0]]))}, 10.0),
     ]
+    # two destinations that free in either order: the customer blocked LATER can be released first
+    three = [node(c=2), node(c=1, cap=0), node(c=1, cap=0)]
+    three_cl = {"A": klass([{"values": [0.5, 0.25], "budget": 3}, {"values": [0.25], "budget": 1}, {"values": [0.25], "budget": 1}],
+                           [[0.5, 1.0], [4.0, 2.0], [4.0, 3.0]], route=matrix([[0.0, 0.5, 0.5], [0.0, 0.0, 0.0], [0.0, 0.0, 0.0]]))}
+    for tr in ("MatrixBlocking", "NaiveBlocking") if tier == "quick" else TRACKERS:
+        tn = tr if isinstance(tr, str) else "%s%s" % (tr[0], list(tr[1].values())[0])
+        out.append(cfg("two blocking destinations / %s" % tn, fam, copy.deepcopy(three), copy.deepcopy(three_cl), K=3, T=10.0,
+                       D=5 if tier == "quick" else 8, tracker=tr, features=["tracker", "blocking", "two destinations"]))
+    # the other entry points stamp the history too
+    for method, n in (("Finish", 3), ("Complete", 2), ("Arrive", 4), ("Accept", 3)):
+        for tr in ("NodePopulation", "NaiveBlocking") if tier == "quick" else ("SystemPopulation", "NodePopulation", "NaiveBlocking", "MatrixBlocking", "NodeClassMatrix"):
+            nm, nodes, classes, T = nets[1]          # no feedback loop: the count is always reached
+            out.append(cfg("%s / %s until %d customers (%s)" % (nm, tr, n, method), fam, copy.deepcopy(nodes), copy.deepcopy(classes), K=K + 1,
+                           entry=["max_customers", n, method], D=4 if tier == "quick" else 6, tracker=tr, features=["tracker", nm, "max_customers"]))
     for nm, nodes, classes, T in nets:
         for tr in TRACKERS:
             tn = tr if isinstance(tr, str) else "%s%s" % (tr[0], list(tr[1].values())[0])
@@ -265,7 +283,6 @@ def focused(tier):
             if tier == "quick" and nm not in ("blocking", "class change after service + blocking") and tn in (
                     "NodePopulationSubset[1]", "GroupedNodePopulation[[1, 0]]", "NodeClassMatrix['B', 'A']"):
                 continue
-            import copy
             out.append(cfg("%s / %s" % (nm, tn), fam, copy.deepcopy(nodes), copy.deepcopy(classes), K=K, T=T, D=4 if tier == "quick" else 6,
                            tracker=tr, features=["tracker", nm]))
     return out
